@@ -10,6 +10,8 @@
 //!   app_reach  (C05)  Reach.reachb / pwalkb / reach_set / Bellman-Ford through RR.judge (Model/ReachRun.v)
 //! Lines: I = canonical facts of the response; S = the verdict computed in Coq (prints the expected text when the
 //! checkers accept, REJECT(..) otherwise); M only for app_sums (the traversal model re-walks the returned path bit for bit).
+//! Command line: e2e <app_walk|app_sums|app_reach|probe> --seed S --n N --out DIR --shards K [--replay FILE]
+//! (FILE = {"case": <description>} or {"cases": [...]}: the configuration and query are rebuilt from the description).
 //! `probe` prints raw responses.  Private helpers only (appkit / searchkit are read-only): the configuration writer
 //! (appkit's has no [state] section, turn delays, road-class frontier, unit choices) lives here.
 use routee_compass::app::compass::compass_app::CompassApp;
@@ -1515,7 +1517,8 @@ fn gen_case(r: &mut Rng, stream: &str) -> (String, Cfg, Qry, Vec<&'static str>) 
 }
 
 
-// PART5
+// ------------------------------------------------------------------------------------------ probe / main
+
 fn probe(out: &Path) {
     let grid: Vec<(usize, usize)> = vec![(0, 1), (1, 0), (1, 2), (2, 1), (0, 8), (8, 0), (1, 9), (9, 1), (8, 9), (9, 8), (9, 10), (10, 9), (2, 10), (10, 2), (3, 3), (0, 1)];
     let net = simple_net(16, &grid);
